@@ -94,6 +94,18 @@ def gen_cases(rng, tier):
         pat = rng.choice(patterns(rng.choice([1, 2, 2]), True))
         cases.append({'kind': 'rdm', 'norb': norb, 'mode': 'ns', 'n': na + nb, 'sz': na - nb, 'pat': pat, 'big': True,
                       'ket': sparse_state(), 'bra': sparse_state() if rng.random() < 0.5 else None, 'letters': None})
+    # low filling with two electrons of one spin (>= 7 orbitals): same-spin blocks of the low-filling RDM kernels
+    # (reference path), complex sparse states, bra = ket and transition
+    for _ in range(4 if tier == 'quick' else 16):
+        norb = rng.choice([7, 7, 8])
+        na, nb = rng.choice([(2, 0), (0, 2), (2, 1), (1, 2), (2, 2)])
+        keys = fqeio.sector_keys(norb, 'ns', na + nb, na - nb)
+        basis = fqeio.basis_of(norb, keys)
+
+        def sparse_lf():
+            return [[a, b, rng.randint(-2, 2) or 1, rng.randint(-2, 2) or 1] for a, b in rng.sample(basis, min(len(basis), 12))]
+        cases.append({'kind': 'rdm', 'norb': norb, 'mode': 'ns', 'n': na + nb, 'sz': na - nb, 'pat': rng.choice(patterns(2, True)),
+                      'big': True, 'ket': sparse_lf(), 'bra': sparse_lf() if rng.random() < 0.5 else None, 'letters': None})
     # numeric elements and Hamiltonian expectation values
     for _ in range(20 if tier == 'quick' else 120):
         norb = rng.randint(1, 3)
